@@ -1355,7 +1355,7 @@ def _update(rng, kind, force):
         b = P['a'].copy()
         b[key] = P['v'] if kind != 'fxp' or True else v
         return b
-    return {'inputs': {'a': a, 'v': v}, 'call': call, 'ref': ref,
+    return {'mutates': True, 'inputs': {'a': a, 'v': v}, 'call': call, 'ref': ref,
             'desc': f'mpc.np_update(a{list(s)}, {key!r}, {mode} value{list(v.shape)})', 'key': (s, repr(key), mode, str(a.tolist()), str(v.tolist())),
             'tags': ['update:' + mode]}
 
